@@ -36,6 +36,7 @@ def task_names(tier):
                 continue
             names.append('redump/json/%s/%s' % (ver, k))
     names.append('nozone')
+    names += ['versions/zinc', 'versions/json']
     return names
 
 
@@ -43,6 +44,13 @@ def _run_task(name, tier):
     parts = name.split('/')
     if parts[0] == 'frame':
         r = C17.run_task(parts[1], tier)
+        r['task'] = name
+        return r
+    if parts[0] == 'versions':
+        # parsed grids carry ANY version string: both writers, every kind, under a symbolic version - only the documented
+        # ValueError (3.0-only kind below 3.0) may be raised (C10's writer-ladder obligations, re-checked here)
+        from props import C10
+        r = C10.run_task('writers:' + parts[1], tier)
         r['task'] = name
         return r
     T = Task(name)
